@@ -48,6 +48,7 @@ package rosmar
 //@   mustfail [C04:stalled] result == clockdraw[0] - clockdraw[0] % 65536
 //@
 //@ fn (*HybridLogicalClock).updateLatestTime
+//@   modular
 //@   ensures [C04:hlc.update.max] c.highestTime == max(old(c.highestTime), lastTime)
 //@   ensures [C04,C20:hlc.update.unlocked] any: nolocks()
 
@@ -180,6 +181,7 @@ package rosmar
 //@   ensures [C02:checkCasXattr.class]  result != nil ==> iscasmismatch(result) && result.Actual == *existingCas && result.Expected == *expectedCas
 //@
 //@ fn (*Bucket).getLastTimestamp
+//@   modular
 //@   ensures [C04,C10:getLastTimestamp.reads-bucket-mark] !bucket.closed ==> result == old(bucketLastCas) || result == 0
 //@   ensures [C04:getLastTimestamp.frame] db == old(db)
 //@
@@ -427,6 +429,7 @@ package rosmar
 //@   ensures [C20:unregisterBucket.unlocked] any: nolocks()
 //@
 //@ fn (*Bucket).Close
+//@   modular
 //@   ensures [C13:Close.idempotent]   old(bucket.closed) ==> count("call:unregisterBucket") == 0
 //@   ensures [C13:Close.unregisters]  !old(bucket.closed) ==> count("call:unregisterBucket") == 1 && callarg("unregisterBucket", 0) == bucket
 //@   ensures [C13:Close.flag]         bucket.closed
@@ -440,9 +443,37 @@ package rosmar
 //@   modular
 //@
 //@ fn (*Bucket).CloseAndDelete
+//@   modular
 //@   ensures [C13,C16,C20:CloseAndDelete.shuts-store] count("call:Bucket._closeSqliteDB") == 1 && count("call:deleteBucket") == 1 && callpos("Bucket._closeSqliteDB") < callpos("deleteBucket")
 //@   ensures [C20:CloseAndDelete.unlocked] any: nolocks()
 //@
 //@ fn DeleteBucketAt
 //@   modular
 //@   flag trusted=filesystem
+//@
+//@ fn getCachedBucket
+//@   modular
+//@ fn registerBucket
+//@   modular
+//@ fn encodeDBURL
+//@   modular
+//@   flag trusted=net/url
+//@   ensures result1 == nil ==> result0 != nil
+//@ fn (*Bucket).initializeSchema
+//@   modular
+//@   flag modifies=db
+//@ fn (*Bucket).setName
+//@   modular
+//@ fn (*Bucket)._scheduleExpiration
+//@   modular
+//@
+//@ fn OpenBucket
+//@   ensures [C13:OpenBucket.registry-first]  count("call:encodeDBURL") == 1 && (err == nil || count("call:getCachedBucket") == 1 || count("call:getCachedBucket") == 0 && callpos("encodeDBURL") >= 0 && count("call:registerBucket") == 0)
+//@   ensures [C13:OpenBucket.lookup-before-mode] count("call:getCachedBucket") == 0 ==> callret("encodeDBURL", 1) != nil && err != nil && count("sql") == 0
+//@   ensures [C13:OpenBucket.cached-wins]     count("call:getCachedBucket") == 1 && callret("getCachedBucket", 1) == nil && callret("getCachedBucket", 0) != nil ==> err == nil && b == callret("getCachedBucket", 0) && count("sql") == 0 && count("call:registerBucket") == 0
+//@   ensures [C13:OpenBucket.cached-error]    count("call:getCachedBucket") == 1 && callret("getCachedBucket", 1) != nil ==> err != nil && b == nil && count("sql") == 0
+//@   ensures [C13:OpenBucket.registers-once]  count("call:registerBucket") <= 1 && (err == nil && count("call:getCachedBucket") == 1 && callret("getCachedBucket", 0) == nil ==> count("call:registerBucket") == 1 && b == callret("registerBucket", 1))
+//@   ensures [C04,C10:OpenBucket.reseeds-clock] count("call:registerBucket") == 1 ==> count("call:Bucket.getLastTimestamp") == 1 && count("call:HybridLogicalClock.updateLatestTime") == 1 && callpos("HybridLogicalClock.updateLatestTime") < callpos("registerBucket") && callarg("HybridLogicalClock.updateLatestTime", 0) == hlc
+//@   ensures [C10:OpenBucket.schema-once]      count("call:registerBucket") == 1 ==> (scanned(0) == 0 <==> count("call:Bucket.initializeSchema") == 1)
+//@   ensures [C10,C14:OpenBucket.rearms-expiry] err == nil && count("call:registerBucket") == 1 ==> (scanned(0) != 0 <==> count("call:Bucket._scheduleExpiration") == 1)
+//@   ensures [C20:OpenBucket.unlocked]         any: nolocks()
